@@ -18,6 +18,7 @@
 package ucfg
 
 import (
+	"math"
 	"reflect"
 	"regexp"
 	"time"
@@ -782,13 +783,25 @@ func reifyDuration(
 	var d time.Duration
 	var err error
 
+	// numbers are seconds; reject what does not fit into a Duration instead of wrapping
+	const maxSeconds = math.MaxInt64 / int64(time.Second)
 	switch v := val.(type) {
 	case *cfgInt:
+		if v.i > maxSeconds || v.i < -maxSeconds {
+			return reflect.Value{}, raiseConversion(opts.opts, val, ErrOverflow, "duration")
+		}
 		d = time.Duration(v.i) * time.Second
 	case *cfgUint:
+		if v.u > uint64(maxSeconds) {
+			return reflect.Value{}, raiseConversion(opts.opts, val, ErrOverflow, "duration")
+		}
 		d = time.Duration(v.u) * time.Second
 	case *cfgFloat:
-		d = time.Duration(v.f * float64(time.Second))
+		ns := v.f * float64(time.Second)
+		if !(ns >= math.MinInt64 && ns < math.MaxInt64) {
+			return reflect.Value{}, raiseConversion(opts.opts, val, ErrOverflow, "duration")
+		}
+		d = time.Duration(ns)
 	case *cfgString:
 		d, err = time.ParseDuration(v.s)
 	default:
